@@ -1,5 +1,6 @@
 import Driver.Util
 import JadeModel.Model.Cluster
+import JadeModel.Model.ClusterCrash
 
 namespace Jade.Driver
 open Lean Jade.Cluster Jade.Gen.Cluster
@@ -36,6 +37,13 @@ def parseClusterOp (j : Json) : R Op := do
   | "memUnblock" => pure (.memUnblock (← nat j "h") (← nat j "j") (← natList j "done"))
   | _ => throw s!"unknown cluster op {k}"
 
+/-- `{"k": "crash", "op": <api op>, "after": k, "lockGone": b}`: the process performing `op` is killed right before
+    its `(k+1)`-th file write -/
+def parseClusterXOp (j : Json) : R XOp := do
+  if (← str j "k") == "crash" then
+    pure (.crash (← parseClusterOp (← fld j "op")) (← nat j "after") (← bool j "lockGone"))
+  else pure (.api (← parseClusterOp j))
+
 def jres : Res → Json
   | .ok => jstr "ok"
   | .bool b => jobj [("bool", jbool b)]
@@ -71,17 +79,17 @@ def clusterOps : List (String × (Json → R Json)) := [
     let host ← nat j "host"
     let spec ← (← arr j "jobs").toList.mapM fun p => do pure ((← natList p "blockers"), (← bool p "cancel"))
     let brk ← bool j "breakStale"
-    let ops ← (← arr j "ops").toList.mapM parseClusterOp
+    let ops ← (← arr j "ops").toList.mapM parseClusterXOp
     let mut s := create host spec brk
     let init := jdisk s.disk
     let mut out : List Json := []
     for op in ops do
       let before := s.disk
-      let (s', r) := step s op
+      let (s', r) := stepX s op
       s := s'
-      let base := [("res", jres r), ("disk", jdisk s.disk)]
+      let base := [("res", match r with | some r => jres r | none => jstr "killed"), ("disk", jdisk s.disk)]
       let extra := match op with
-        | .read => [("summary", jsummary before)]
+        | .api .read => [("summary", jsummary before)]
         | _ => []
       out := out ++ [jobj (base ++ extra)]
     pure <| jobj [("init", init), ("steps", jarr out)])
